@@ -398,6 +398,8 @@ structure Res where
   st : St
   frames : List FrameOut := []
   err : Option Err := none
+  /-- only set by `pesCorDrain`: the caller loop of the coroutine interface made no progress -/
+  stalled : Bool := false
   deriving DecidableEq, Repr
 
 /-- how `demux_pes_packet` returned -/
@@ -514,7 +516,7 @@ def COR_STALL_LIMIT : Nat := 3
 
 /-- `while (left > 0) n = vbi_dvb_demux_cor (...)`, collecting the frames with n > 0.
 A call that neither consumes input nor returns a frame is a *stall*; `COR_STALL_LIMIT` stalls in a
-row end the loop with `.assertFail "cor_livelock"` (the harness does the same, so that a livelock
+row end the loop with `stalled := true` (the harness does the same, so that a livelock
 of the real code is an output line and not a watchdog timeout).
 `fuel`: number of calls allowed; `2 * buf.length + 4` suffices when nothing stalls. -/
 def pesCorDrain : Nat → SrcCfg → Nat → St → Bytes → Nat → Nat → Res
@@ -526,7 +528,7 @@ def pesCorDrain : Nat → SrcCfg → Nat → St → Bytes → Nat → Nat → Re
       | (s', _, _, some e) => { st := s', err := some e }
       | (s', si', fo, none) =>
         let stall' := if si' = si ∧ fo.isNone then stall + 1 else 0
-        if stall' ≥ COR_STALL_LIMIT then { st := s', err := some (.assertFail "cor_livelock") }
+        if stall' ≥ COR_STALL_LIMIT then { st := s', stalled := true }
         else
           let r := pesCorDrain fuel cfg stall' s' buf si' maxLines
           { r with frames := fo.toList ++ r.frames }
